@@ -57,7 +57,17 @@ func (e *emitter) op(name string, args ...string) string {
 	}
 	curOpName = name
 	keptCur = nil
+	constArgs = nil
 	res := guardT(opLimit(name), func() string { return f(args) })
+	// input-only arguments must not have been written to by the implementation
+	if res != "hang" {
+		for _, c := range constArgs {
+			if hx(c.b) != c.snap {
+				res += " ARGMUT:" + name
+				break
+			}
+		}
+	}
 	// what the PREVIOUS op handed out must still be what it was (no package-level buffer, no shared backing array)
 	if res != "hang" {
 		for i, k := range keptPrev {
@@ -95,6 +105,20 @@ var (
 )
 
 const keepWindow = 64
+
+// constArg registers a slice passed to the implementation as a pure INPUT (key, OP, RAND, …): after the op it must
+// still hold what it held (a function that scribbles on its caller's buffer breaks the caller's next use of it).
+type constA struct {
+	b    []byte
+	snap string
+}
+
+var constArgs []constA
+
+func constArg(b []byte) []byte {
+	constArgs = append(constArgs, constA{b, hx(b)})
+	return b
+}
 
 func retain(live func() string) {
 	keptCur = append(keptCur, kept{curOpName, live(), live})
